@@ -6,7 +6,8 @@
   specification of C01), `DateSufficient` / `TimeSufficient` (the documented combinations),
   `GroupCoherent` / `GroupDeterminate` (year groups).  Helper lemmas: Proofs/ParsedL.lean,
   Proofs/ParsedDateL.lean, Proofs/ParsedDtL.lean, Proofs/ParsedIsoL.lean (on C01's ISO-week theorems),
-  Proofs/ParsedTsL.lean (on C02/C03), Proofs/ParsedZonedL.lean (on C04).
+  Proofs/ParsedTsL.lean (on C02/C03), Proofs/ParsedZonedL.lean (on C04), Proofs/ParsedZoneL.lean
+  (arbitrary zones: Model/ParsedZone.lean's `to_datetime_with_timezone_gen`, step zones).
 
   `InType p` says that every field holds a value of its Rust type (`i32`/`u32`/`i64`); it is the
   only restriction on the record — all 2^21 subsets and all values are covered by each statement.
@@ -14,9 +15,11 @@
   packed value (C01).
 -/
 import Chrono.Proofs.ParsedZonedL
+import Chrono.Proofs.ParsedZoneL
 
 namespace Chrono.Props.C14
 open Chrono Chrono.M Chrono.Spec Chrono.Spec.Fields Chrono.Spec.Ts Chrono.Proofs Chrono.Proofs.ParsedRes Chrono.Extracted
+open Chrono.Proofs.ParsedZone Chrono.M.TzL
 
 attribute [local instance] exceptDecEq
 
@@ -379,6 +382,241 @@ example :
     Parsed.to_datetime {
       year := some 2024, ordinal := some 60, hour_div_12 := some 1, hour_mod_12 := some 0,
       minute := some 0, offset := some 86400 } = .ok (.error .outOfRange) := by
+  decide +kernel
+
+/-! ### `to_datetime_with_timezone` for an ARBITRARY time zone
+
+The zone enters through the two functions the Rust code calls: `ofu` = `offset_from_utc_datetime`
+(then `.fix().local_minus_utc()`) and `fl` = `from_local_datetime` (None | Single | Ambiguous).
+Assumptions, stated explicitly in each theorem — all of them are facts the Rust types guarantee or
+the `TimeZone` contract demands:
+  * `hofu`: a reported offset is an `i32` (the return type of `local_minus_utc`);
+  * `hcand`: a candidate returned for a valid local date-time is a well-formed `DateTime`
+    (`ZInv`: valid UTC reading, |offset| < 24 h — the type invariant of `DateTime<Tz>`);
+  * `hloc` (only for field agreement): a candidate returned for `l` reads `l` on its own wall clock.
+Nothing else is assumed about the zone: the two functions need not be coherent with each other.
+`GuessIs p ofu g`: `g` is 0 without a timestamp field, else `ofu` of the UTC date-time of the
+timestamp.  `Consistent p c`: `c` carries the supplied offset field and its instant is the supplied
+timestamp field (or one less, when `c` is a leap second).  `consistent p m`: the consistent ones
+among the candidates `m`, in order. -/
+
+/-- nothing already proved is lost: for every record and every valid fixed offset, the fixed-zone
+model used by `to_datetime_with_timezone_sound` is the generic model at the constant zone -/
+theorem tz_fixed_is_instance (p : Parsed) (hp : InType p) (zone : Int) (hz : OffValid zone) :
+    Parsed.to_datetime_with_timezone p zone =
+      Parsed.to_datetime_with_timezone_gen p (Parsed.fixed_offset_from_utc zone)
+        (Parsed.fixed_from_local zone) := fixed_is_instance p hp zone hz
+
+/-- soundness, EVERY zone, every record: a successful result `z`
+(a) is one of the candidates `from_local_datetime` returned for the resolved naive date-time `dt`;
+(b) carries exactly the supplied offset field;
+(b') its instant is exactly the supplied timestamp field (one less is allowed for a leap-second
+    result) — whichever side of a fold the other fields would allow;
+(c) `dt` is an existing day and time that agree with every supplied date field, every supplied time
+    field and the timestamp at the guessed offset (`NaiveOk`, i.e. `datetime_sound` through `dt`);
+and it is the ONLY candidate consistent with the offset and timestamp fields. -/
+theorem tz_gen_sound (p : Parsed) (hp : InType p) (ofu : NaiveDT → Res Int)
+    (fl : NaiveDT → Res (Mapped Zoned))
+    (hofu : ∀ u o, NDTInv u → ofu u = .ok o → -2147483648 ≤ o ∧ o ≤ 2147483647)
+    (hcand : ∀ l m c, NDTInv l → fl l = .ok m → c ∈ m.toList → ZInv c)
+    (z : Zoned) (h : Parsed.to_datetime_with_timezone_gen p ofu fl = .ok (.ok z)) :
+    ∃ g dt m, GuessIs p ofu g ∧ Parsed.to_naive_datetime_with_offset p g = .ok (.ok dt) ∧
+      NaiveOk p dt g ∧ fl dt = .ok m ∧
+      z ∈ m.toList ∧
+      (∀ x, p.offset = some x → z.off = x) ∧
+      (∀ ts, p.timestamp = some ts →
+        ts = instSecs z.utc ∨ (1000000000 ≤ z.utc.time.frac ∧ ts = instSecs z.utc + 1)) ∧
+      consistent p m = [z] := by
+  rcases gen_reach p hp ofu fl hofu hcand _ h with ⟨_, _, _, h3⟩ | ⟨_, _, _, _, _, h3⟩ |
+    ⟨g, dt, m, hg, hdt, hn, hm, h3⟩
+  · cases h3
+  · cases h3
+  · have hl := (choose_ok _ z).mp h3.symm
+    obtain ⟨hmem, hoff, hts⟩ := consistent_mem p m z (by rw [hl]; simp)
+    exact ⟨g, dt, m, hg, hdt, hn, hm, hmem, hoff, hts, hl⟩
+
+/-- field agreement, EVERY zone whose candidates read the requested local time: the wall clock
+(`naive_local`) of a successful result is a date-time that agrees with every supplied date field
+and time field (the sense of `date_sound` / `time_sound` / `datetime_sound`) -/
+theorem tz_gen_fields_agree (p : Parsed) (hp : InType p) (ofu : NaiveDT → Res Int)
+    (fl : NaiveDT → Res (Mapped Zoned))
+    (hofu : ∀ u o, NDTInv u → ofu u = .ok o → -2147483648 ≤ o ∧ o ≤ 2147483647)
+    (hcand : ∀ l m c, NDTInv l → fl l = .ok m → c ∈ m.toList → ZInv c)
+    (hloc : ∀ l m c, NDTInv l → fl l = .ok m → c ∈ m.toList → Zoned.naive_local c = .ok l)
+    (z : Zoned) (h : Parsed.to_datetime_with_timezone_gen p ofu fl = .ok (.ok z)) :
+    ∃ dt, Zoned.naive_local z = .ok dt ∧ ∃ Y o, VD Y o ∧ dt.date = dateOfYo Y o ∧ DateAgrees p Y o ∧
+      TStrict dt.time ∧ TimeAgreesSupplied p dt.time := by
+  obtain ⟨g, dt, m, _, _, hn, hm, hmem, _⟩ := tz_gen_sound p hp ofu fl hofu hcand z h
+  refine ⟨dt, hloc dt m z (naiveOk_inv p dt g hn) hm hmem, ?_⟩
+  obtain ⟨Y, o, h1, h2, h3, h4, h5, _⟩ := hn
+  exact ⟨Y, o, h1, h2, h3, h4, h5⟩
+
+/-- error kinds, EVERY zone: an error is one of the three documented kinds, and it arises in exactly
+one of three ways — the timestamp field is not a representable instant (OUT_OF_RANGE); the naive
+resolution at the guessed offset fails (its kind, see `datetime_sound`); or the zone's candidates
+for the resolved local date-time contain no consistent one (IMPOSSIBLE — in particular when there
+is no candidate at all: a gap) or two consistent ones (NOT_ENOUGH: an `Ambiguous` pair both of which
+carry the supplied offset and timestamp, e.g. neither field is supplied) -/
+theorem tz_gen_error_kinds (p : Parsed) (hp : InType p) (ofu : NaiveDT → Res Int)
+    (fl : NaiveDT → Res (Mapped Zoned))
+    (hofu : ∀ u o, NDTInv u → ofu u = .ok o → -2147483648 ≤ o ∧ o ≤ 2147483647)
+    (hcand : ∀ l m c, NDTInv l → fl l = .ok m → c ∈ m.toList → ZInv c)
+    (e : PErr) (h : Parsed.to_datetime_with_timezone_gen p ofu fl = .ok (.error e)) :
+    (e = .notEnough ∨ e = .impossible ∨ e = .outOfRange) ∧
+    ((e = .outOfRange ∧ ∃ ts, p.timestamp = some ts ∧ ¬ tsOk ts (p.nanosecond.getD 0)) ∨
+     (∃ g, GuessIs p ofu g ∧ Parsed.to_naive_datetime_with_offset p g = .ok (.error e)) ∨
+     (∃ g dt m, GuessIs p ofu g ∧ Parsed.to_naive_datetime_with_offset p g = .ok (.ok dt) ∧
+        fl dt = .ok m ∧
+        ((e = .impossible ∧ consistent p m = []) ∨
+         (e = .notEnough ∧ ∃ a b, m = .ambiguous a b ∧ Consistent p a ∧ Consistent p b)))) := by
+  rcases gen_reach p hp ofu fl hofu hcand _ h with ⟨ts, h1, h2, h3⟩ | ⟨g, e', hg, hdt, hk, h3⟩ |
+    ⟨g, dt, m, hg, hdt, hn, hm, h3⟩
+  · cases h3
+    exact ⟨Or.inr (Or.inr rfl), Or.inl ⟨rfl, ts, h1, h2⟩⟩
+  · cases h3
+    exact ⟨hk, Or.inr (Or.inl ⟨g, hg, hdt⟩)⟩
+  · rcases choose_err _ e h3.symm with ⟨rfl, hl⟩ | ⟨rfl, hl⟩
+    · exact ⟨Or.inr (Or.inl rfl), Or.inr (Or.inr ⟨g, dt, m, hg, hdt, hm, Or.inl ⟨rfl, hl⟩⟩)⟩
+    · obtain ⟨a, b, hab, ha, hb⟩ := consistent_two p m hl
+      exact ⟨Or.inl rfl, Or.inr (Or.inr ⟨g, dt, m, hg, hdt, hm, Or.inr ⟨rfl, a, b, hab, ha, hb⟩⟩)⟩
+
+/-- resolution, EVERY zone: once the naive date-time `dt` is resolved (at the guessed offset) and
+the zone has answered with well-formed candidates `m`, the outcome is determined by the consistent
+candidates: no candidate → IMPOSSIBLE; none consistent → IMPOSSIBLE; exactly one consistent → that
+one (whether it is the first or the second of an `Ambiguous` pair); both of an `Ambiguous` pair
+consistent → NOT_ENOUGH -/
+theorem tz_gen_resolution (p : Parsed) (hp : InType p) (ofu : NaiveDT → Res Int)
+    (fl : NaiveDT → Res (Mapped Zoned)) (g : Int) (dt : NaiveDT) (m : Mapped Zoned)
+    (hg : GuessIs p ofu g) (hdt : Parsed.to_naive_datetime_with_offset p g = .ok (.ok dt))
+    (hm : fl dt = .ok m) (hc : ∀ c ∈ m.toList, ZInv c) :
+    (m = .none → Parsed.to_datetime_with_timezone_gen p ofu fl = .ok (.error .impossible)) ∧
+    (consistent p m = [] → Parsed.to_datetime_with_timezone_gen p ofu fl = .ok (.error .impossible)) ∧
+    (∀ c, consistent p m = [c] → Parsed.to_datetime_with_timezone_gen p ofu fl = .ok (.ok c)) ∧
+    (∀ a b, m = .ambiguous a b → Consistent p a → ¬ Consistent p b →
+      Parsed.to_datetime_with_timezone_gen p ofu fl = .ok (.ok a)) ∧
+    (∀ a b, m = .ambiguous a b → ¬ Consistent p a → Consistent p b →
+      Parsed.to_datetime_with_timezone_gen p ofu fl = .ok (.ok b)) ∧
+    (∀ a b, m = .ambiguous a b → Consistent p a → Consistent p b →
+      Parsed.to_datetime_with_timezone_gen p ofu fl = .ok (.error .notEnough)) := by
+  have hres := gen_resolution p hp ofu fl g dt m hg hdt hm hc
+  refine ⟨fun h => ?_, fun h => ?_, fun c h => ?_, fun a b h ha hb => ?_, fun a b h ha hb => ?_,
+    fun a b h ha hb => ?_⟩
+  · rw [hres, h]; rfl
+  · rw [hres, h]; rfl
+  · rw [hres, h]; rfl
+  · rw [hres, h, consistent_pair p a b, (consistentB_iff p a).mpr ha, consistentB_false p b hb]; rfl
+  · rw [hres, h, consistent_pair p a b, consistentB_false p a ha, (consistentB_iff p b).mpr hb]; rfl
+  · rw [hres, h, consistent_pair p a b, (consistentB_iff p a).mpr ha, (consistentB_iff p b).mpr hb]; rfl
+
+/-- no panic, EVERY zone whose two functions do not panic on valid arguments and return what their
+types promise: the resolver returns a value or an error kind -/
+theorem tz_gen_no_panic (p : Parsed) (hp : InType p) (ofu : NaiveDT → Res Int)
+    (fl : NaiveDT → Res (Mapped Zoned))
+    (hofu : ∀ u, NDTInv u → ∃ o, ofu u = .ok o ∧ -2147483648 ≤ o ∧ o ≤ 2147483647)
+    (hfl : ∀ l, NDTInv l → ∃ m, fl l = .ok m ∧ ∀ c ∈ m.toList, ZInv c) :
+    ∃ r, Parsed.to_datetime_with_timezone_gen p ofu fl = .ok r := gen_total p hp ofu fl hofu hfl
+
+/-! ### step zones: one transition, `o1` before the instant `T`, `o2` from `T` on -/
+
+/-- the step zone's local-time lookup from first principles: the instants that read `s` on the
+zone's clock are exactly `s − o` for the listed offsets `o`; a listed pair is in order of instants -/
+theorem step_zone_candidates (z : StepZone) (s : Int) :
+    (∀ u, u + z.offset_at u = s ↔ (s - u) ∈ (z.local_offsets s).toList) ∧
+    (∀ a b, z.local_offsets s = .ambiguous a b → s - a < s - b) :=
+  ⟨fun u => candidates_iff z s u, fun a b h => (ambiguous_order z s a b h).2.2.2.2⟩
+
+/-- the step zones meet every assumption of the generic theorems: for valid offsets and valid
+arguments neither function panics, the reported offset is the zone's offset at that instant, and
+every candidate for `l` is well formed, reads `l` on its wall clock, and carries the zone's offset
+at its own instant; an `Ambiguous` pair is in order of instants -/
+theorem step_zone_is_zone (z : StepZone) (h1 : OffValid z.o1) (h2 : OffValid z.o2) :
+    (∀ u, NDTInv u → z.offset_from_utc_datetime u = .ok (z.offset_at (instSecs u)) ∧
+      OffValid (z.offset_at (instSecs u))) ∧
+    (∀ l, NDTInv l → ∃ m, z.from_local_datetime l = .ok m ∧
+      (∀ c ∈ m.toList, StepCandidate z l c) ∧
+      (∀ a b, m = .ambiguous a b → instSecs a.utc < instSecs b.utc)) := by
+  refine ⟨fun u hu => step_ofu_spec z h1 h2 u hu, fun l hl => ?_⟩
+  obtain ⟨m, hm, hc, ho⟩ := step_from_local_spec z h1 h2 l hl
+  exact ⟨m, hm, fun c hcm => (hc c hcm).1, ho⟩
+
+/-- `to_datetime_with_timezone(&StepZone)`, every record, every step zone with valid offsets (fold,
+gap or none): never panics; errors are of the three documented kinds; a successful result is a
+well-formed value whose offset is the zone's offset at its own instant, that carries the supplied
+offset field, whose instant is the supplied timestamp field (one less allowed for a leap second),
+and whose wall clock is a date-time agreeing with every supplied date and time field -/
+theorem step_zone_sound (p : Parsed) (hp : InType p) (z : StepZone) (h1 : OffValid z.o1)
+    (h2 : OffValid z.o2) :
+    ∃ r, Parsed.to_datetime_with_step_zone p z = .ok r ∧
+      (∀ e, r = .error e → e = .notEnough ∨ e = .impossible ∨ e = .outOfRange) ∧
+      (∀ v, r = .ok v → Consistent p v ∧ ∃ g dt, NaiveOk p dt g ∧ StepCandidate z dt v) :=
+  step_sound p hp z h1 h2
+
+/-- a timestamp field decides a fold: in a step zone whose fold is not exactly one second wide, a
+record with a timestamp field is never refused as NOT_ENOUGH because of the zone — NOT_ENOUGH can
+only come from the naive resolution (too few date/time fields) -/
+theorem step_zone_timestamp_decides (p : Parsed) (hp : InType p) (z : StepZone) (h1 : OffValid z.o1)
+    (h2 : OffValid z.o2) (hw : z.o1 - z.o2 ≠ 1) (ts : Int) (hts : p.timestamp = some ts)
+    (h : Parsed.to_datetime_with_step_zone p z = .ok (.error .notEnough)) :
+    ∃ g, GuessIs p z.offset_from_utc_datetime g ∧
+      Parsed.to_naive_datetime_with_offset p g = .ok (.error .notEnough) :=
+  step_timestamp_decides p hp z h1 h2 hw ts hts h
+
+/-- the zone of the examples: +02:00 until 2021-10-31T01:00:00Z (= 1635642000), +01:00 from then on;
+the local times 02:00:00 ..< 03:00:00 of that day occur twice -/
+def foldZone : StepZone := ⟨1635642000, 7200, 3600⟩
+/-- 2021-10-31 02:30:00, the middle of the fold -/
+def inFold : Parsed :=
+  { year := some 2021, month := some 10, day := some 31, hour_div_12 := some 0, hour_mod_12 := some 2,
+    minute := some 30, second := some 0 }
+
+/-- non-vacuity, the fold: the offset field +01:00 picks the SECOND candidate (01:30Z), +02:00 the
+FIRST (00:30Z); without offset and timestamp the local time is ambiguous: NOT_ENOUGH; an offset that
+matches neither side: IMPOSSIBLE -/
+example :
+    Parsed.to_datetime_with_step_zone { inFold with offset := some 3600 } foldZone
+      = .ok (.ok ⟨⟨dateOfYo 2021 304, ⟨5400, 0⟩⟩, 3600⟩) ∧
+    Parsed.to_datetime_with_step_zone { inFold with offset := some 7200 } foldZone
+      = .ok (.ok ⟨⟨dateOfYo 2021 304, ⟨1800, 0⟩⟩, 7200⟩) ∧
+    Parsed.to_datetime_with_step_zone inFold foldZone = .ok (.error .notEnough) ∧
+    Parsed.to_datetime_with_step_zone { inFold with offset := some 0 } foldZone
+      = .ok (.error .impossible) := by
+  decide +kernel
+
+/-- the timestamp field inside the fold (repaired finding F26; before the repair the first two
+inputs returned 02:30+01:00 = 1635643800 resp. 02:30+02:00 = 1635640200, contradicting the supplied
+timestamp): a timestamp on the +02:00 side with the offset field +01:00, and the mirror case, are
+IMPOSSIBLE; the timestamp alone resolves to the candidate at that instant (first resp. second);
+timestamp and matching offset likewise; date/time fields of the fold with a timestamp pick the side
+of the timestamp -/
+example :
+    Parsed.to_datetime_with_step_zone { timestamp := some 1635640200, offset := some 3600 } foldZone
+      = .ok (.error .impossible) ∧
+    Parsed.to_datetime_with_step_zone { timestamp := some 1635643800, offset := some 7200 } foldZone
+      = .ok (.error .impossible) ∧
+    Parsed.to_datetime_with_step_zone { timestamp := some 1635640200 } foldZone
+      = .ok (.ok ⟨⟨dateOfYo 2021 304, ⟨1800, 0⟩⟩, 7200⟩) ∧
+    Parsed.to_datetime_with_step_zone { timestamp := some 1635643800 } foldZone
+      = .ok (.ok ⟨⟨dateOfYo 2021 304, ⟨5400, 0⟩⟩, 3600⟩) ∧
+    Parsed.to_datetime_with_step_zone { timestamp := some 1635643800, offset := some 3600 } foldZone
+      = .ok (.ok ⟨⟨dateOfYo 2021 304, ⟨5400, 0⟩⟩, 3600⟩) ∧
+    Parsed.to_datetime_with_step_zone { inFold with timestamp := some 1635643800 } foldZone
+      = .ok (.ok ⟨⟨dateOfYo 2021 304, ⟨5400, 0⟩⟩, 3600⟩) := by
+  decide +kernel
+
+/-- non-vacuity, a gap (+01:00 → +02:00 at 2021-03-28T01:00:00Z = 1616893200: local 02:00 ..< 03:00
+do not exist): a local time in the gap is IMPOSSIBLE, the seconds around it resolve -/
+example :
+    Parsed.to_datetime_with_step_zone
+      { year := some 2021, month := some 3, day := some 28, hour_div_12 := some 0, hour_mod_12 := some 2,
+        minute := some 30 } ⟨1616893200, 3600, 7200⟩ = .ok (.error .impossible) ∧
+    Parsed.to_datetime_with_step_zone
+      { year := some 2021, month := some 3, day := some 28, hour_div_12 := some 0, hour_mod_12 := some 1,
+        minute := some 59, second := some 59 } ⟨1616893200, 3600, 7200⟩
+      = .ok (.ok ⟨⟨dateOfYo 2021 87, ⟨3599, 0⟩⟩, 3600⟩) ∧
+    Parsed.to_datetime_with_step_zone
+      { year := some 2021, month := some 3, day := some 28, hour_div_12 := some 0, hour_mod_12 := some 3,
+        minute := some 0 } ⟨1616893200, 3600, 7200⟩
+      = .ok (.ok ⟨⟨dateOfYo 2021 87, ⟨3600, 0⟩⟩, 7200⟩) := by
   decide +kernel
 
 /-- no resolver panics: for every record of in-type field values, every `i32` offset argument and
